@@ -201,7 +201,7 @@ func TestVerifC06Server(t *testing.T) {
 	rounds := vhEnvInt("VERIF_ROUNDS", 3)
 	flood := vhEnvInt("VERIF_FLOOD", 32)
 	zero := make([]byte, 400)
-	for _, path := range vlabTransports {
+	for _, path := range append(append([]string{}, vlabTransports...), "doh-get-wrapped", "doq-longprefix") {
 		for round := 0; round < rounds; round++ {
 			for _, v := range c06Variants() {
 				c06Flood(warm, path, func(i int) []byte { return c06Sentinel(uint16(i)) }, flood)
